@@ -1,6 +1,7 @@
 import Driver.Codec
 import Driver.FromJson
 import Driver.Introspect
+import Driver.DirectivesIO
 import TartModel.Impl.ExecT
 import TartModel.Impl.Subscription
 import TartModel.Spec.Validation
@@ -123,6 +124,7 @@ def handle (j : Json) : Except String Json := do
     let impl := (arrField j "implemented").filterMap fun n => match n with | Json.str s => some s | _ => none
     pure (Json.mkObj [("violations", Json.arr ((Spec.TS.violations M impl).map Json.str).toArray),
                       ("beyond", Json.arr ((Spec.TS.beyond M).map Json.str).toArray)])
+  | "directives" => DirectivesIO.run j
   | "echo" => pure (Json.mkObj [("ok", encode (← decode (← j.getObjVal? "value")))])
   | _ => throw s!"unknown op {op}"
 
